@@ -233,6 +233,7 @@ func runHistory(c *Ctx, caseIdx int, rng *rand.Rand, o *HistOpts) *HistRun {
 	m := NewModel(g.G, sim)
 	if o.UseRef {
 		m.Ref = NewRefEVM()
+		g.ExtraContracts = func() []string { return sortedKeys(m.Ref.Contracts) }
 	}
 	hr.M = m
 	hr.Total0 = totalValue(m.Hist[0])
